@@ -237,7 +237,7 @@ def consts_set(tier):
             if n >= 3:
                 fs.append(Field([(1, 2)], 'u', family='CONST'))
             return fs
-        structs.append(Struct(n, fields(), family='CONST'))
+        structs.append(Struct(n, fields(), family='CONST', debug=(n % 2 == 1)))
         vals = []
         for v in (0, 1, m, aa, m & ~0x7, (1 << (n - 1)), 0x0123456789ABCDEFFEDCBA9876543210 & m):
             if v not in vals:
@@ -250,7 +250,8 @@ def consts_set(tier):
                     # quick: every value in one (rotating) form/spelling, boundary values in all four; thorough: full product
                     if tier == 'quick' and v not in (m, m & ~0x7) and (k + n) % 4 != 0:
                         continue
-                    structs.append(Struct(n, fields(), default=v, default_form=form, default_sep=sep, family='CONSTDEF'))
+                    # every other declaration also carries the `debug` option (option interactions)
+                    structs.append(Struct(n, fields(), default=v, default_form=form, default_sep=sep, family='CONSTDEF', debug=(k % 2 == 1)))
     return structs
 
 
